@@ -11,7 +11,6 @@ https://github.com/internetarchive/CDX-Writer.
 import base64
 import codecs
 import hashlib
-import re
 import uuid
 
 from typing import Optional
@@ -154,21 +153,31 @@ class WARCRecord(object):
     def get_http_header(self) -> Response:
         '''Return the HTTP header.
 
-        It only attempts to read the first 4 KiB of the payload.
+        The header block is read up to its terminating empty line,
+        however long it is.
 
         Returns:
             Response, None: Returns an instance of
             :class:`.http.request.Response` or None.
         '''
+        header_lines = []
+
         with wpull.util.reset_file_offset(self.block_file):
-            data = self.block_file.read(4096)
+            while True:
+                line = self.block_file.readline()
 
-        match = re.match(br'(.*?\r?\n\r?\n)', data, re.DOTALL)
+                if not line.endswith(b'\n'):
+                    # The block ended before the header block did.
+                    return
 
-        if not match:
-            return
+                header_lines.append(line)
 
-        status_line, dummy, field_str = match.group(1).partition(b'\n')
+                if line in (b'\r\n', b'\n'):
+                    break
+
+        header_data = b''.join(header_lines)
+
+        status_line, dummy, field_str = header_data.partition(b'\n')
 
         try:
             version, code, reason = Response.parse_status_line(status_line)
